@@ -1,6 +1,5 @@
 import Lemmas.Funding
 import Lemmas.SpecInv
-import Lemmas.Allocate
 /-! Conservation facts about `Spec` (A1): what `assemble`, the sources, `takeFromSource` and the destinations do
 to totals.  Used by `Props/C03.lean` (`send_exact`, `dest_conserves`, `source_cap_respected`, …). -/
 namespace Num
@@ -318,6 +317,15 @@ end
 
 /-! ### sends -/
 
+theorem bumpLoop_length' (n : Int) (xs : List Int) (acc : Int) : (bumpLoop n xs acc).length = xs.length := by
+  induction xs generalizing acc with
+  | nil => simp [bumpLoop]
+  | cons x xs ih => simp only [bumpLoop]; split <;> simp [ih]
+
+theorem allocate_length' (ps : List Rat') (n : Int) : (allocate ps n).length = ps.length := by
+  simp [allocate, bumpLoop_length']
+
+
 /-- what a send does once its funding `f` is determined: the postings it appends add up to the funding minus
 what the destination keeps (which goes back to the sources) -/
 def SendOK (asset : Asset) (amount : Int) (st st' : St) : Prop :=
@@ -396,7 +404,7 @@ theorem send_mon_allot_ok {env : VEnv} {e : Expr} {items : List (PortionSpec × 
     rw [hla]; exact (h1 l (List.mem_of_getLast? hl)).2
   have := finishSend_ok hfin hf
   rw [assemble_total hasm, h3, hfa] at this
-  exact ⟨ps, hp, by rw [← allocate_length ps mn]; exact h2, this, h4⟩
+  exact ⟨ps, hp, by rw [← allocate_length' ps mn]; exact h2, this, h4⟩
 
 /-! ### whole runs: every posting is non-negative -/
 
